@@ -191,6 +191,18 @@ CLAIMED["C14"] = (
     "not compared.",
     "DESIGN.md 3/C14",
 )
+CLAIMED["C12"] = (
+    "metamorphic/compositional relations over generated documents (valid, near-valid mutants, conflict-"
+    "seeking, grammar-random) x rule sets (all, every single rule, random subsets in random order) x error "
+    "limits, with and without locations",
+    "validate() with a rule set reports exactly the multiset union of what each rule reports alone with each "
+    "rule's order preserved; the ordered messages are unchanged by reprinting, re-layout and added "
+    "descriptions; a second call is identical and neither document nor schema is modified; with max_errors=n "
+    "at most n errors plus one abort notice come back, the notice exactly when more errors exist, and they "
+    "are the prefix of the unlimited list.",
+    "Locations are not compared across layouts; the abort notice is recognised by its text.",
+    "DESIGN.md 3/C12",
+)
 PENDING_REASON = (
     "check under construction in this session (DESIGN.md section 3 has its design); it is not claimed "
     "until it has run quietly on the unchanged tree at several seeds"
